@@ -3,4 +3,4 @@ From CAres.Core Require Import Frame.
 Extraction Language OCaml.
 Extraction "../ocaml/gen/FrameModel.ml" buf_create frames cut process_read run_reads read_answers
   enqueue conn_flush conn_query_write process_write run_wops server_bytes server_dgrams enqueued
-  process_answer_decide using_tcp_after callback_invoked requeued next_conn_is_tcp frame remaining.
+  process_answer_decide using_tcp_after callback_invoked requeued next_conn_is_tcp after_answer frame remaining.
